@@ -366,7 +366,7 @@ Loop:
 }
 
 func isTerminator(r rune) bool {
-	return isSep(r) || r == ';' || r == '{' || r == '"' || r == '}'
+	return isSep(r) || r == ';' || r == '{' || r == '"' || r == '}' || r == eof
 }
 
 func isSep(r rune) bool {
